@@ -96,6 +96,7 @@ pub fn gen_snapshot(seed: u64, class: &str) -> RetainSnapshot {
         "small" => 2 + rng.usize(6),
         "large" => 2000 + rng.usize(8000),
         "huge-entry" => 1,
+        "wide" => return gen_wide(&mut rng),
         _ => 1 + rng.usize(30),
     };
     let mut s = RetainSnapshot::default();
@@ -109,6 +110,57 @@ pub fn gen_snapshot(seed: u64, class: &str) -> RetainSnapshot {
             gen_value(&mut rng, 0)
         };
         s.insert(name, v);
+    }
+    s
+}
+
+/// Large flat collections of compound values: realistic recipe tables, many struct variables, wide structs, legally deep nesting.
+fn gen_wide(rng: &mut Rng) -> RetainSnapshot {
+    let mut s = RetainSnapshot::default();
+    let rec = |rng: &mut Rng, k: usize| {
+        let mut fields = IndexMap::new();
+        for i in 0..1 + rng.usize(3) {
+            fields.insert(SmolStr::new(format!("f{i}")), if i == 0 { Value::DInt(k as i32) } else { gen_value(rng, 3) });
+        }
+        Value::Struct(StructValue { type_name: SmolStr::new("Recipe"), fields })
+    };
+    match rng.below(5) {
+        0 => {
+            let n = 60 + rng.usize(340);
+            s.insert("P.recipes", Value::Array(ArrayValue { elements: (0..n).map(|k| rec(rng, k)).collect(), dimensions: vec![(1, n as i64)] }));
+        }
+        1 => {
+            for k in 0..60 + rng.usize(140) {
+                s.insert(format!("P.unit_{k}"), rec(rng, k));
+            }
+        }
+        2 => {
+            let mut fields = IndexMap::new();
+            for i in 0..100 + rng.usize(300) {
+                fields.insert(SmolStr::new(format!("member_{i}")), Value::Int(i as i16));
+            }
+            s.insert("P.wide", Value::Struct(StructValue { type_name: SmolStr::new("Wide"), fields }));
+        }
+        3 => {
+            let n = 60 + rng.usize(300);
+            s.insert("P.matrix", Value::Array(ArrayValue { elements: (0..n).map(|k| Value::Array(ArrayValue { elements: vec![Value::Int(k as i16), Value::Bool(k % 2 == 0)], dimensions: vec![(0, 1)] })).collect(), dimensions: vec![(0, n as i64 - 1)] }));
+        }
+        _ => {
+            // legally deep nesting (struct in array in struct ...), well below any sensible limit
+            let depth = 4 + rng.usize(28);
+            let mut v = Value::LInt(depth as i64);
+            for d in 0..depth {
+                v = if d % 2 == 0 {
+                    Value::Array(ArrayValue { elements: vec![v, Value::Null], dimensions: vec![(0, 1)] })
+                } else {
+                    let mut fields = IndexMap::new();
+                    fields.insert(SmolStr::new("inner"), v);
+                    fields.insert(SmolStr::new("tag"), Value::Int(d as i16));
+                    Value::Struct(StructValue { type_name: SmolStr::new("N"), fields })
+                };
+            }
+            s.insert("P.deep", v);
+        }
     }
     s
 }
@@ -157,7 +209,7 @@ fn load_checked(path: &Path) -> Result<Result<RetainSnapshot, String>, String> {
 
 fn part_a(sh: &mut Shard, rng: &mut Rng, dir: &Path, n: usize) {
     for i in 0..n {
-        let class = *rng.pick(&["empty", "one", "small", "mixed", "mixed", "mixed", "large"]);
+        let class = *rng.pick(&["empty", "one", "small", "mixed", "mixed", "mixed", "large", "wide", "wide"]);
         let seed = rng.next();
         let case = json!({"part":"A","class":class,"snap_seed":seed.to_string()});
         if !sh.begin(&format!("A|{class}"), &case) {
